@@ -525,8 +525,13 @@ func c14BFS(s *C14Shape, depth int, r *core.Rec) int64 {
 	type node struct{ path []uint8 }
 	frontier := []node{{nil}}
 	hc := &C14Hist{Shape: *s}
-	key := func(cn c14Counts) string { return fmt.Sprint(cn.under, cn.bins, cn.over) }
-	seen[key(c14Read(s.make()))] = true
+	// state key: the counter vector plus every field of the histogram object read by
+	// reflection (hidden caches or flags keep implementation states apart)
+	key := func(h stats.Histogram) string {
+		cn := c14Read(h)
+		return fmt.Sprint(cn.under, cn.bins, cn.over) + "|" + core.DeepKey(h)
+	}
+	seen[key(s.make())] = true
 	for d := 0; d < depth && len(frontier) > 0; d++ {
 		var next []node
 		for _, nd := range frontier {
@@ -550,13 +555,14 @@ func c14BFS(s *C14Shape, depth int, r *core.Rec) int64 {
 					r.Try(func() { c14HistCheck(hc, r) })
 					continue
 				}
-				k := key(c14Read(h))
+				// every transition is checked; de-duplication only prunes the frontier
+				r.Case("hist", hc)
+				r.Try(func() { c14HistCheck(hc, r) })
+				k := key(h)
 				if seen[k] {
 					continue
 				}
 				seen[k] = true
-				r.Case("hist", hc)
-				r.Try(func() { c14HistCheck(hc, r) })
 				next = append(next, node{path})
 			}
 		}
